@@ -260,7 +260,7 @@ def run(ctx):
         mm = [x for x in H.walk(lp["body"]) if H.kind(x) == "Match" and x["scrut"].get("ty", "").endswith("values::LambdaArg")][0]
         for aa in mm["arms"]:
             cls = "|".join(H.last(v) for v in H.pat_variants(aa["pat"]))
-            env = S.Env(roles={idxn: ("idx",), "args": ("args",)})
+            env = S.Env(roles={idxn: ("idx",), H.param_by_type(hfc, "Vec<blots_core::values::Value>", "args"): ("args",)})
             ins = [x for x in H.walk(aa["body"]) if H.kind(x) == "MethodCall" and x["name"] == "insert"]
             val = None
             if ins:
